@@ -173,6 +173,13 @@ func runBehaviour(steps []step, suite network.SecureAeadSuite, rnd *rand.Rand) *
 				}
 				fr[lo+rnd.Intn(hi-lo)] ^= 1 << uint(rnd.Intn(8))
 				qq.Frames[s.I-1] = fr
+			case "cut", "cuthdr": // the frame loses its tail
+				fr := qq.Frames[s.I-1]
+				n := 1 + rnd.Intn(network.VerifSecureHeaderSize-1)
+				if s.Kind == "cut" {
+					n = network.VerifSecureHeaderSize + rnd.Intn(len(fr)-network.VerifSecureHeaderSize)
+				}
+				qq.Frames[s.I-1] = append([]byte(nil), fr[:n]...)
 			case "drop":
 				qq.Frames = append(append([][]byte(nil), qq.Frames[:s.I-1]...), qq.Frames[s.I:]...)
 			case "dup":
